@@ -22,7 +22,7 @@ POOL = 6
 FUNCS = ['is_none', 'typename', 'rep', 'str2', 'const7', 'ident']
 OPS = ['new_records', 'new_columns', 'new_rows', 'new_empty', 'setitem', 'setitem_from', 'update_from', 'delitem', 'update', 'row', 'col', 'cols_tuple', 'slice',
        'mask', 'take', 'project', 'derive', 'rename', 'do', 'minus', 'copy', 'add', 'iadd', 'add_record', 'add_records', 'add_zero', 'concat', 'sum_rows',
-       'inc', 'exc', 'inc_fn', 'inc_all', 'inc_dict', 'setitem_reject', 'new_reject', 'update_reject']
+       'inc', 'exc', 'inc_fn', 'inc_all', 'inc_dict', 'edit_returned', 'setitem_reject', 'new_reject', 'update_reject']
 
 
 class SimCallbackError(Exception):
@@ -139,7 +139,7 @@ def generate(st):
         'cols': sorted(sw.sample(COLS, sw.randint(2, 6)) + (['data'] if sw.random() < 0.2 else []) + (['columns'] if sw.random() < 0.06 else []) + (['key'] if sw.random() < 0.15 else [])),
         'cells': sorted(sw.sample(range(len(CELLS)), sw.randint(3, len(CELLS)))),
         'faulty': sw.random() < 0.6,
-        'off': sorted(sw.sample(OPS[4:33], sw.randint(0, 8))),
+        'off': sorted(sw.sample(OPS[4:34], sw.randint(0, 8))),
     }
     FILTER_DICTS.clear()
     REAL_FILTER_DICTS.clear()
@@ -394,7 +394,10 @@ def _gen_op(o, g, f, cfg, cells, cols, models, rows_n, cell, spec_for):
             form = g.choice(['suffix', 'prefix', 'callable'])
             mp = [[c, (c + '_s') if form == 'suffix' else ('p_' + c) if form == 'prefix' else (c + c)] for c in m.cols]
             return {'op': o, 't': t, 'map': mp, 'via': form}
-        return {'op': o, 't': t, 'map': [[old, free[i]] for i, old in enumerate(olds)], 'via': g.choice(['rename', 'relabel'])}
+        if r2 < 0.4 and len(free) >= len(m.cols):
+            # every column gets a new name, given as a plain list in column order
+            return {'op': o, 't': t, 'map': [[c, free[i]] for i, c in enumerate(m.cols)], 'via': 'namelist'}
+        return {'op': o, 't': t, 'map': [[old, free[i]] for i, old in enumerate(olds)], 'via': g.choice(['rename', 'relabel', 'dictarg'])}
     if o == 'do':
         if not m.cols:
             return None
@@ -467,6 +470,10 @@ def _gen_op(o, g, f, cfg, cells, cols, models, rows_n, cell, spec_for):
         vals1 = [v for v in m.column(c1) if v is not None and not _isnan(v)]
         # filter dict number k of the caller: created on first use, then reused as is
         return {'op': o, 't': t, 'k': g.randrange(2), 'col': c1, 'val': enc(g.choice(vals1) if vals1 and g.random() < 0.7 else 'x'), 'kw': kw, 'exc': g.random() < 0.4}
+    if o == 'edit_returned':
+        if not m.cols:
+            return None
+        return {'op': o, 't': t, 'what': g.choice(['row', 'rows', 'keys', 'tuples']), 'i': g.randrange(-n, n) if n else 0, 'col': g.choice(m.cols)}
     if o == 'inc_all':
         return {'op': o, 't': t, 'exc': g.random() < 0.5}
     if o == 'inc_fn':
@@ -732,6 +739,8 @@ def model_apply(op, models):
         final = [mp.get(c, c) for c in m.cols]
         if len(set(final)) != len(final):
             return ('skip',)          # renaming onto a column that stays: outside the oracle
+        if op.get('via') == 'namelist' and (set(mp) != set(m.cols) or len(m.cols) < 2):
+            return ('skip',)
         if op.get('via') in ('suffix', 'prefix', 'callable'):
             exp = {c: (c + '_s') if op['via'] == 'suffix' else ('p_' + c) if op['via'] == 'prefix' else (c + c) for c in m.cols}
             if mp != exp:
@@ -823,6 +832,10 @@ def model_apply(op, models):
         hit = [all(_filter_match(r[c], v) for c, v in eff.items()) for r in m.rows]
         rows = [r for r, h in zip(m.rows, hit) if (not h if op.get('exc') else h)]
         return ('table', M(m.cols, rows))
+    if o == 'edit_returned':
+        if op['col'] not in m.cols or (op['what'] == 'row' and not (-n <= op['i'] < n)) or (op['what'] == 'row' and n == 0):
+            return ('skip',)
+        return ('value', None)           # nothing to compare: check_all sees whether any table noticed the edit
     if o == 'inc_all':
         return ('table', m.copy())       # no condition: every row, as a new table
     if o == 'inc_fn':
@@ -1186,6 +1199,10 @@ def real_apply(op, reals, dictable):
             return d.rename('p_')
         if via == 'callable':
             return d.relabel(lambda key: key + key)
+        if via == 'dictarg':
+            return d.relabel(dict(mp))
+        if via == 'namelist':
+            return d.relabel([mp[c] for c in dict.keys(d)]) if len(mp) != 1 else d.relabel(*[mp[c] for c in dict.keys(d)])
         return d.rename(**mp) if via != 'relabel' else d.relabel(**mp)
     if o == 'do':
         counter = [0]
@@ -1219,6 +1236,24 @@ def real_apply(op, reals, dictable):
         flt = REAL_FILTER_DICTS.setdefault(op['k'], dict(FILTER_DICTS[op['k']]))
         kw = {op['kw'][0]: dec(op['kw'][1])} if op.get('kw') else {}
         return d.exc(flt, **kw) if op.get('exc') else d.inc(flt, **kw)
+    if o == 'edit_returned':
+        w = op['what']
+        if w == 'row':
+            r = d[op['i']]
+            r[op['col']] = 'edited-by-caller'
+            r['zz'] = 1
+        elif w == 'rows':
+            rows = list(d)
+            for r in rows:
+                r[op['col']] = 'edited-by-caller'
+            del rows[:]
+        elif w == 'keys':
+            ks = d.keys()
+            ks.append('zz')
+        else:
+            ts = d[(op['col'],)]
+            ts.append(('edited',))
+        return None
     if o == 'inc_all':
         return d.exc() if op.get('exc') else d.inc()
     if o == 'inc_fn':
